@@ -145,12 +145,16 @@ impl Prop for C08 {
             sweep("all namings over {a,b,_}, binder slice", binders.clone(), 8, tier.pick(11, 13), ["a", "b", "_"]),
         ];
         v.push(sweep("all namings over {iff,é,_}, class alphabet", class, 1, tier.pick(5, 7), ["iff", "é", "_"]));
+        // groups nested in definitions and bodies, nothing but names: reaches two-member groups whose
+        // first definition is itself a parenthesised group (15 tokens)
+        let groups_only = g.restrict(&[K::Identifier, K::LeftParen, K::RightParen, K::Equals, K::Semicolon], &["application"]);
+        v.push(sweep("all namings over {a,b,_}, groups-only slice", groups_only, 12, tier.pick(15, 17), ["a", "b", "_"]));
         v
     }
     fn evidence(&self, tier: Tier) -> EvidenceSpec {
         EvidenceSpec {
             level: "exploration",
-            rule: "every derivation tree of grammar.y up to the bounds (class alphabet; let slice; binder slice) with every assignment of the names {a, b, _} (and {iff, é, _}: a keyword prefix and a non-ASCII letter) to every identifier leaf: all nestings of binders, sibling scopes re-using a name, groups nested in definitions / annotations / bodies, every way to leave a name unbound or to re-bind one. The real parse is compared with a named scope resolver: predicted faults (kind and identifier) must all be reported; fault-free programs must be accepted with exactly the predicted de Bruijn index at every occurrence and a fresh hole for every `_`, or be rejected by the definition-order check alone. non-trivial = programs accepted with the predicted indices + programs rejected with the predicted faults".to_owned(),
+            rule: "every derivation tree of grammar.y up to the bounds (class alphabet; let slice; binder slice; a slice of bare names, definitions and parentheses that reaches groups whose members are themselves parenthesised groups, 15/17 tokens) with every assignment of the names {a, b, _} (and {iff, é, _}: a keyword prefix and a non-ASCII letter) to every identifier leaf: all nestings of binders, sibling scopes re-using a name, groups nested in definitions / annotations / bodies, every way to leave a name unbound or to re-bind one. The real parse is compared with a named scope resolver: predicted faults (kind and identifier) must all be reported; fault-free programs must be accepted with exactly the predicted de Bruijn index at every occurrence and a fresh hole for every `_`, or be rejected by the definition-order check alone. non-trivial = programs accepted with the predicted indices + programs rejected with the predicted faults".to_owned(),
             assumptions: vec![
                 "diagnostic *counts* after a first scoping error are not compared (follow-up diagnostics are allowed)".to_owned(),
                 "the definition-order diagnostics form a class of their own; their adequacy is C01's question".to_owned(),
